@@ -490,14 +490,54 @@ def main(argv):
     try:
         return _main(pid, P, tier, repo, seed, scratch, ev_path, t0)
     except Undecided as e:
-        print('UNDECIDED property=%s: %s' % (pid, e))
-        write_evidence(ev_path, pid, tier, seed, P, dict(obligations=0, discharged=0, undecided=str(e)), t0, undecided=True)
-        return 2
+        return unit_fallback(pid, P, tier, seed, repo, e, ev_path, t0, None)
     finally:
         if not keep:
             shutil.rmtree(scratch, ignore_errors=True)
         else:
             log('scratch kept at', scratch)
+
+
+def unit_fallback(pid, P, tier, seed, repo, e, ev_path, t0, cache):
+    """a unit whose extraction fails as a whole (lost struct anchor, ...) has no function left to verify: the concrete oracle
+    sweeps are its bounded stand-in (a finding tagged with this property refutes it; a clean sweep leaves it undecided)"""
+    hits, runs = [], []
+    if 'extraction of unit' in str(e) and os.environ.get('VP_NO_SWEEP') != '1':
+        try:
+            import vpreplay
+            scen = []
+            for u in P.get('units', []):
+                for sc in {'model': [['model_sweep']], 'core': [['algebra_sweep'], ['stats_sweep'], ['nonfinite_derivative_stats']]}.get(u, []):
+                    if sc not in scen:
+                        scen.append(sc)
+            key = ('sweep', tuple(tuple(x) for x in scen))
+            if scen:
+                if cache is not None and key in cache:
+                    runs = cache[key]
+                else:
+                    runs = vpreplay.run_scenarios(repo, scen)[0]
+                    if cache is not None:
+                        cache[key] = runs
+            hits = [(r['scenario'], fd) for r in runs for fd in r.get('findings', []) if pid in fd.get('tags', [])]
+        except Exception as e2:
+            log('sweep fallback failed:', e2)
+    if hits:
+        os.makedirs(os.path.join(out_dir(repo), 'replay'), exist_ok=True)
+        for k, (sc, fd) in enumerate(hits):
+            rp = os.path.join(out_dir(repo), 'replay', '%s-sweep.%s.%d.json' % (pid, sc.split()[0], k + 1))
+            with open(rp, 'w') as fh:
+                json.dump({'property': pid, 'failed_obligation': 'sweep.%s.%d' % (sc.split()[0], k + 1), 'kind': 'sweep-bounded',
+                           'verifier_message': 'nothing could be verified (%s); bounded stand-in: concrete oracle sweep %s' % (e, sc),
+                           'counterexample': [fd['text']], 'failing_input_reproduced': True,
+                           'replay_cmd': 'build replay/drivers/vp_replay.rs against a scratch copy of the tree; run: vp_replay ' + sc}, fh, indent=1)
+            print('VIOLATION property=%s replay=%s' % (pid, rp))
+            print('  bounded stand-in (concrete oracle sweep %s): %s' % (sc, fd['text'][:300]))
+        write_evidence(ev_path, pid, tier, seed, P, dict(obligations=0, discharged=0, undecided=str(e),
+                       bounded_checks=[dict(name='sweep ' + r['scenario'], status=r['outcome']) for r in runs]), t0, violations=len(hits), undecided=True)
+        return 1
+    print('UNDECIDED property=%s: %s%s' % (pid, e, (' -- concrete oracle sweeps found nothing for this property: ' + ', '.join(r['scenario'] for r in runs)) if runs else ''))
+    write_evidence(ev_path, pid, tier, seed, P, dict(obligations=0, discharged=0, undecided=str(e)), t0, undecided=True)
+    return 2
 
 
 def write_evidence(path, pid, tier, seed, P, cov, t0, violations=0, undecided=False):
@@ -653,6 +693,18 @@ def _main(pid, P, tier, repo, seed, scratch, ev_path, t0):
             if pid in tags_here or pid == 'C08':
                 degraded_relevant.append((ur, f))
     fb_res = None
+    sweep_runs = []
+    if degraded_relevant and os.environ.get('VP_NO_SWEEP') != '1':
+        import vpreplay
+        scen = vpreplay.sweeps_for([f['id'] for _, f in degraded_relevant])
+        key = ('sweep', tuple(tuple(x) for x in scen))
+        if scen:
+            if key not in cache:
+                try:
+                    cache[key] = vpreplay.run_scenarios(repo, scen)[0]
+                except Exception as e:
+                    cache[key] = [dict(scenario='-', outcome='sweep driver error: %s' % e, findings=[], reproduced=False)]
+            sweep_runs = cache[key]
     if degraded_relevant:
         names = []
         for (_, f) in degraded_relevant:
@@ -724,9 +776,18 @@ def _main(pid, P, tier, repo, seed, scratch, ev_path, t0):
                                     repo_line=None, fn_repo_lines=None,
                                     message='bounded Kani stand-in %s failed (the function could not be verified deductively: %s)' % (h['name'], '; '.join(f['degraded'] for _, f in degraded_relevant)[:300]),
                                     rendered=h.get('output_tail', ''), concrete=h.get('failed_checks')), None))
-        if not failed_fb:
+        # bounded stand-in 2: the concrete oracle sweeps of the replay driver (a finite set of inputs against independent
+        # formulas); a finding tagged with this property refutes it with a concrete failing input, a clean sweep proves nothing
+        sweep_hits = [(r['scenario'], fd) for r in sweep_runs for fd in r.get('findings', []) if pid in fd.get('tags', [])]
+        for k, (sc, fd) in enumerate(sweep_hits):
+            violations.append((dict(kind='sweep-bounded', clause='sweep.%s.%d' % (sc.split()[0], k + 1), tags=[pid], fn=';'.join(f['id'] for _, f in degraded_relevant)[:200],
+                                    repo_file=degraded_relevant[0][1].get('file'), repo_line=None, fn_repo_lines=None,
+                                    message='bounded stand-in (concrete oracle sweep %s) for a function that could not be verified (%s): %s' % (sc, '; '.join(f['id'] for _, f in degraded_relevant)[:200], fd['text']),
+                                    rendered=fd['text'], concrete=[fd['text']]), None))
+        if not failed_fb and not sweep_hits:
             undecided.append('not verified (degraded to an assumed contract): ' + '; '.join('%s: %s' % (f['id'], f['degraded']) for _, f in degraded_relevant)[:1500]
-                             + (' -- bounded stand-ins passed: ' + ','.join(h['name'] for h in fb_res['harnesses']) if fb_res and fb_res.get('harnesses') else ''))
+                             + (' -- bounded stand-ins passed: ' + ','.join(h['name'] for h in fb_res['harnesses']) if fb_res and fb_res.get('harnesses') else '')
+                             + (' -- concrete oracle sweeps found nothing for this property: ' + ', '.join(r['scenario'] for r in sweep_runs) if sweep_runs else ''))
     # Kani part
     kres = kani
     for h in kres.get('harnesses', []):
@@ -759,7 +820,8 @@ def _main(pid, P, tier, repo, seed, scratch, ev_path, t0):
         'solver_ms': solver_ms,
         'la_lemmas_verified_no_cheating': la_verified,
         'vacuity_probes_failed_as_required': sum(p[0] for p in probes),
-        'bounded_checks': [dict(name=h['name'], bound=h.get('bound', ''), status=h['status']) for h in kres.get('harnesses', []) if h['kind'] != 'complete'],
+        'bounded_checks': [dict(name=h['name'], bound=h.get('bound', ''), status=h['status']) for h in kres.get('harnesses', []) if h['kind'] != 'complete']
+                          + [dict(name='sweep ' + r['scenario'], bound='fixed finite set of concrete problems against an independent oracle (replay/drivers/vp_replay.rs)', status=r['outcome']) for r in sweep_runs],
         'complete_kani_harnesses': [dict(name=h['name'], status=h['status']) for h in kres.get('harnesses', []) if h['kind'] == 'complete'],
         'not_decided': P.get('not_decided', []),
         'assumed_from_dependency': P.get('assumed_from_dependency', []),
@@ -853,8 +915,8 @@ def main_all(argv):
                 with contextlib.redirect_stdout(buf):
                     rc = _main(pid, props[pid], 'quick', repo, 0, scratch, os.path.join(evdir, pid + '.json'), t0)
             except Undecided as e:
-                rc = 2
-                buf.write('UNDECIDED %s' % e)
+                with contextlib.redirect_stdout(buf):
+                    rc = unit_fallback(pid, props[pid], 'quick', 0, repo, e, os.path.join(evdir, pid + '.json'), t0, _CACHE)
             out[pid] = rc
             txt = buf.getvalue().strip().replace('\n', ' | ')
             print('%s rc=%d %s' % (pid, rc, txt[:300]))
